@@ -252,6 +252,13 @@ def r20cd(prog, rep, cache_adt, iter_adt):
                 t = b['term']
                 if t and t['t'] == 'call' and any(re.search(r'VecDeque<u32', prog.field_type(of, fl) or '') for (of, fl) in mir.place_fields(t['dst'])[-1:]):
                     qstores.append((g, t, [a for a in t['args'] if is_place(a)], g.where(t)))
+        # ... or be written as `self.queue.extend(group)` on the (empty) queue
+        for g in fgroup:
+            for c in g.calls:
+                if c.short in ('extend', 'append', 'extend_from_slice') and 'VecDeque' in c.callee + (g.ty.get(c.arg_local(0), '') or '') and len(c.args) > 1:
+                    ro = mir.provenance(g, c.args[0])
+                    if any(re.search(r'VecDeque<u32', prog.field_type(of, fl) or '') for (of, fl) in ro.fields):
+                        qstores.append((g, c.d if hasattr(c, 'd') else g.blocks[c.bb]['term'], [a for a in c.args[1:] if is_place(a)], c.where()))
         if not qstores:
             rep.violation('R20e', 'anchor-lost:queue-store', fn=f.name, detail='anchor lost: the iterator no longer refills its queue of page numbers')
         for n, (g, node, ops, where) in enumerate(qstores, 1):
